@@ -49,8 +49,9 @@ func c25Base(rng *rand.Rand, chron string) (pre, post []string) {
 		}
 		return "w " + strings.Join(items, ",")
 	}
-	pre = []string{chron, "live 1000000", batch(), "sync", batch(), "sync", batch(), "sync"}
-	post = []string{batch(), "sync", batch(), "sync", "close", chron, "load"}
+	// probes: what a reader would see at that moment, fault or not (readability DURING the fault)
+	pre = []string{chron, "live 1000000", batch(), "sync", batch(), "sync", "probe", batch(), "sync", "probe"}
+	post = []string{batch(), "sync", "probe", batch(), "sync", "probe", "close", chron, "load"}
 	return
 }
 
@@ -112,6 +113,7 @@ func c25Gen(rng *rand.Rand, tier string, w *bufio.Writer) {
 			fmt.Fprintf(w, "fsizeplus %d\n", k)
 			fmt.Fprintln(w, post[0])
 			fmt.Fprintln(w, post[1])
+			fmt.Fprintln(w, "probe") // the disk is still full
 			fmt.Fprintln(w, "fsize 0")
 			for _, l := range post[2:] {
 				fmt.Fprintln(w, l)
